@@ -197,6 +197,30 @@ pub fn run(tier: &str) -> i32 {
         }
         let tf = yaml_test_file(&inputs, &exp);
         let want_exit = if want.iter().any(|c| !c.failed.is_empty()) { 7 } else { 0 };
+        // a directory with this rules file between two others whose tests all match: the run exits as this file alone does
+        if !errors && ci % 3 == 0 {
+            reset_dir("c16dd");
+            put("c16dd/m_this.guard", &text);
+            put("c16dd/tests/m_this_tests.yaml", &tf);
+            for nm in ["a_before", "z_after"] {
+                put(&format!("c16dd/{}.guard", nm), "rule ok { zz !exists }\n");
+                put(&format!("c16dd/tests/{}_tests.yaml", nm), "- input: {a: 1}\n  expectations:\n    rules:\n      ok: PASS\n");
+            }
+            for fmt in fmts {
+                let mut argv = sv(&["test", "--dir"]);
+                argv.push(workdir().join("c16dd").to_string_lossy().to_string());
+                match fmt {
+                    "plain" => {}
+                    "plain-v" => argv.push("-v".into()),
+                    f => argv.extend(sv(&["-o", f])),
+                }
+                let o = cli_inproc(&argv, "");
+                acc.traces += 1;
+                if o.panic.is_none() && o.status() != want_exit {
+                    acc.violate(&format!("exit-code:{}:dir-of-three", fmt), format!("test --dir over three rules files exits {} but the only file with expectations that can fail exits {} alone | rules `{}` tests `{}`", o.status(), want_exit, text.trim(), tf.trim()), json!({"kind":"cli","argv":argv,"stdin":"","files":{"m_this.guard":text,"tests/m_this_tests.yaml":tf,"a_before.guard / z_after.guard":"rule ok { zz !exists }"},"expected":format!("exit {}", want_exit),"observed":format!("exit {}", o.status())}));
+                }
+            }
+        }
         for dir_layout in [false, true] {
             let tag = if dir_layout { "c16d" } else { "c16f" };
             reset_dir(tag);
